@@ -10179,6 +10179,12 @@ class Format_Item_C1002(Base):  # pylint: disable=invalid-name
         # before the 'P') (1) or a slash edit descriptor with a repeat
         # specifier (3) so look for the repeat specifier.
         found, index = skip_digits(strip_string)
+        if not found and strip_string[0] in "+-":
+            # The scale factor of a P edit descriptor may be signed.
+            found, index = skip_digits(strip_string[1:])
+            index += 1
+            if found and strip_string[index].upper() != "P":
+                found = False
         if found:
             # We found a possible repeat specifier (which may contain
             # white space after the first digit)
